@@ -47,7 +47,9 @@ def _run(name, mon, payloads, rule, samples=None):
             crashed += 1
             first_err = first_err or o[:300]
             continue
-        failing += r.get('fail', [])
+        for f in r.get('fail', []):
+            f.setdefault('monitor', mon)      # tools/replay.py re-runs the input through the monitor that produced it
+            failing.append(f)
         if r.get('nontrivial'):
             nontriv.add(l)
     step = max(1, len(payloads) // 4)
